@@ -439,3 +439,111 @@ theorem roundtrip_general (tb : Tables) (hof : ∀ j, tb.ofName (tb.nameOf j) = 
 
 #print axioms roundtrip_general
 end Prog
+
+namespace Prog
+
+/-- the identity root that `annotNode` computes is the hash of the identity Merkle root and the arrow -/
+theorem annotNode_ihr (tm : BM4.Ty → Nat) (jc jk : String → Option Nat) (arr : Nat → BM4.Ty × BM4.Ty)
+    (wit : Nat → Option (List Bool)) (anf : Nat → Annot) (i : Nat) (nd : Node) (x : Annot)
+    (h : annotNode tm jc jk arr wit anf i nd = some x) (hnh : ∀ y, nd ≠ .hidden y)
+    (hopen : ∀ a, nd ≠ .disconnect a none) (hw : nd = .witness → (wit i).isSome) :
+    x.ihr = ihrOf tm x.imr (arr i) := by
+  unfold annotNode at h
+  generalize arr i = ar at h ⊢
+  obtain ⟨a, b⟩ := ar
+  simp only at h
+  cases nd
+  case hidden y => exact absurd rfl (hnh y)
+  case disconnect u v =>
+    cases v with
+    | none => exact absurd rfl (hopen u)
+    | some v =>
+      simp only at h
+      split at h
+      · simp only [Option.some.injEq] at h; rw [← h]
+      · cases h
+  case witness =>
+    obtain ⟨bits, hb⟩ := Option.isSome_iff_exists.mp (hw rfl)
+    simp only [hb, Option.some.injEq] at h
+    rw [← h]
+  case jet name =>
+    simp only [bind, Option.bind] at h
+    cases h1 : jc name with
+    | none => rw [h1] at h; cases h
+    | some c =>
+      cases h2 : jk name with
+      | none => rw [h1, h2] at h; cases h
+      | some k =>
+        rw [h1, h2] at h
+        simp only [pure, Option.some.injEq] at h
+        rw [← h]
+  all_goals
+    simp only at h
+    first
+      | (simp only [Option.some.injEq] at h; rw [← h])
+      | (split at h
+         · simp only [Option.some.injEq] at h; rw [← h]
+         · cases h)
+
+/-- **`IhrFaithful` layer by layer**: identity roots separate the nodes of an annotated plan as soon as
+(1) the last hashing step of the identity root — `ihrOf`: two SHA-256 compressions over the identity
+Merkle root and the type Merkle roots of source and target — has no collision among the nodes of the
+plan, (2) the identity Merkle root has no collision among the nodes of the plan (equal roots: same
+kind and payload, children with pairwise equal identity Merkle roots, equal witness bits), and
+(3) nodes with one identity root have children with pairwise equal arrows (implied by (1) for every
+combinator except for the type between the halves of `comp` and the source of the right child of
+`disconnect`, which the identity root does not commit to). -/
+theorem ihrFaithful_of_layers {jc jk : String → Option Nat} {p : Plan}
+    {arrows : Array (BM4.Ty × BM4.Ty)} {wit : Nat → Option (List Bool)} {an : Array Annot}
+    (hb : PlanBackward p) (H : AnnotOk jc jk p arrows wit an)
+    (hnh : ∀ (i x : Nat), p[i]? ≠ some (Node.hidden x))
+    (hopen : ∀ (i a : Nat), p[i]? ≠ some (Node.disconnect a none))
+    (hwit : ∀ i, p[i]? = some .witness → (wit i).isSome)
+    (h1 : ∀ i i', i < p.size → i' < p.size →
+      ihrOf tmr (an.getD i default).imr (arrows.getD i (.one, .one)) =
+        ihrOf tmr (an.getD i' default).imr (arrows.getD i' (.one, .one)) →
+      (an.getD i default).imr = (an.getD i' default).imr ∧
+        arrows.getD i (.one, .one) = arrows.getD i' (.one, .one))
+    (h2 : ∀ (i i' : Nat) (nd nd' : Node), p[i]? = some nd → p[i']? = some nd' →
+      (an.getD i default).imr = (an.getD i' default).imr →
+      nd.shape = nd'.shape ∧
+      (∀ (k c c' : Nat), nd.children[k]? = some c → nd'.children[k]? = some c' →
+        (an.getD c default).imr = (an.getD c' default).imr) ∧
+      (nd = .witness → wit i = wit i'))
+    (h3 : ∀ (i i' : Nat) (nd nd' : Node), p[i]? = some nd → p[i']? = some nd' →
+      (an.getD i default).ihr = (an.getD i' default).ihr →
+      ∀ (k c c' : Nat), nd.children[k]? = some c → nd'.children[k]? = some c' →
+        arrows.getD c (.one, .one) = arrows.getD c' (.one, .one)) :
+    IhrFaithful p arrows an wit := by
+  have hlt_of : ∀ (i : Nat) (nd : Node), p[i]? = some nd → i < p.size := by
+    intro i nd hp
+    rcases Nat.lt_or_ge i p.size with h | h
+    · exact h
+    · rw [Array.getElem?_eq_none h] at hp; cases hp
+  have hihr : ∀ (i : Nat) (nd : Node), p[i]? = some nd →
+      (an.getD i default).ihr = ihrOf tmr (an.getD i default).imr (arrows.getD i (.one, .one)) := by
+    intro i nd hp
+    have := annotNode_ihr tmr jc jk (fun j => arrows.getD j (.one, .one)) wit (fun j => an.getD j default)
+      i nd (an.getD i default) (H.2 i nd hp) (fun y e => hnh i y (by rw [hp, e]))
+      (fun a e => hopen i a (by rw [hp, e])) (fun e => hwit i (by rw [hp, e]))
+    exact this
+  intro i i' nd nd' hp hp' e
+  have e' := e
+  rw [hihr i nd hp, hihr i' nd' hp'] at e'
+  obtain ⟨himr, harr⟩ := h1 i i' (hlt_of _ _ hp) (hlt_of _ _ hp') e'
+  obtain ⟨hsh, hkids, hw⟩ := h2 i i' nd nd' hp hp' himr
+  refine ⟨hsh, ?_, harr, hw⟩
+  intro k c c' hc hc'
+  have hci : c < p.size := by
+    have := hb i nd hp c (List.mem_of_getElem? hc)
+    have := hlt_of _ _ hp
+    omega
+  have hci' : c' < p.size := by
+    have := hb i' nd' hp' c' (List.mem_of_getElem? hc')
+    have := hlt_of _ _ hp'
+    omega
+  rw [hihr c _ (Array.getElem?_eq_getElem hci), hihr c' _ (Array.getElem?_eq_getElem hci'),
+    hkids k c c' hc hc', h3 i i' nd nd' hp hp' e k c c' hc hc']
+
+#print axioms ihrFaithful_of_layers
+end Prog
